@@ -581,6 +581,16 @@ func (s *service) handleSubscribe(ctx context.Context, peerId string, sub *pubsu
 			s.pruneStream(streamId, strm)
 			s.pruneSpace(sub.SpaceId, si)
 		}
+	} else {
+		// nothing was accepted (empty topic list, only duplicates, or a cap hit on the
+		// first pattern): drop the empty records created above, otherwise an empty space
+		// trie or an empty stream record outlives the stream (no close/unsubscribe path
+		// revisits a record that holds no pattern)
+		if len(spacePatterns) == 0 {
+			delete(strm.bySpace, sub.SpaceId)
+		}
+		s.pruneStream(streamId, strm)
+		s.pruneSpace(sub.SpaceId, si)
 	}
 	s.remoteMu.Unlock()
 
